@@ -524,12 +524,15 @@ def install_world(schd, world, scn, rng):
                         for m in seq:
                             t += rng.choice([0, 0, 1, 1, 2])
                             sched.append([t, m])
+                        n_own = len(sched)
                         if dis and rng.random() < dis:
                             k = rng.randrange(len(sched))
                             sched.append([sched[k][0] + rng.choice([0, 1, 3]), sched[k][1]])   # duplicate
-                        if dis and rng.random() < dis and len(sched) >= 2:
-                            i = rng.randrange(len(sched) - 1)
-                            sched[i][0], sched[i + 1][0] = sched[i + 1][0], sched[i][0]        # out of order
+                        if dis and rng.random() < dis and n_own >= 3:
+                            # out of order -- but a job sends its messages one after the other and its final message
+                            # last: nothing the job said earlier arrives after its succeeded/failed message
+                            i = rng.randrange(n_own - 2)
+                            sched[i][0], sched[i + 1][0] = sched[i + 1][0], sched[i][0]
                         for due_t, m in sched:
                             world.seq += 1
                             world.msgs.append((due_t + 1, it.job_tokens, m, [p, n], sn, world.seq))
